@@ -111,61 +111,80 @@ pub fn build(kind: &Kind, special: &SpecialCfg, file: &str) -> anyhow::Result<te
 /// independent expectation: (regular tokens in id order or as a set, special tokens in id order)
 pub struct Expect {
     pub regular: Vec<Vec<u8>>,
-    /// true if `regular` is only known as a set (char tokenizer)
-    pub regular_is_set: bool,
     pub special: Vec<String>,
 }
 
-pub fn expect(kind: &Kind, special: &SpecialCfg) -> Expect {
+/// `vocab` = the tokenizer's own get_vocab() output; it is consulted only for what the
+/// statement leaves open: the names of the padding tokens added for pad_to_multiple_of, the
+/// concrete alphabet of the char tokenizer, and how many merges a max_vocab_size keeps.
+pub fn expect(kind: &Kind, special: &SpecialCfg, vocab: &[Vec<u8>]) -> Result<Expect, String> {
     match kind {
         Kind::Byte { pad_to, .. } => {
-            let mut toks = special.tokens.clone();
+            let mut uniq = special.unique_tokens();
             if let Some(p) = pad_to {
-                let u = special.unique_tokens().len();
-                let n = 256 + u;
+                let n = 256 + uniq.len();
                 let padded = n.div_ceil(*p) * *p;
-                for i in 0..padded - n {
-                    toks.push(format!("<extra_token_{i}>"));
-                }
-            }
-            let mut uniq: Vec<String> = vec![];
-            for t in toks {
-                if !uniq.contains(&t) {
+                // the padding tokens are whatever the tokenizer calls them, as long as they are
+                // distinct UTF-8 strings of >= 2 bytes that are not among the user's tokens
+                for i in n..padded {
+                    let Some(t) = vocab.get(i) else {
+                        return Err(format!("vocabulary has {} entries, expected padding up to {padded}", vocab.len()));
+                    };
+                    let Ok(t) = String::from_utf8(t.clone()) else {
+                        return Err(format!("padding token {i} is not UTF-8"));
+                    };
+                    if t.len() < 2 || uniq.contains(&t) {
+                        return Err(format!("padding token {i} = {t:?} is empty, a single byte, or a duplicate"));
+                    }
                     uniq.push(t);
                 }
             }
-            Expect {
+            Ok(Expect {
                 regular: (0..=255u8).map(|b| vec![b]).collect(),
-                regular_is_set: false,
                 special: uniq,
-            }
+            })
         }
         Kind::Char { unk, .. } => {
             let mut uniq = special.unique_tokens();
             if !uniq.contains(unk) {
                 uniq.push(unk.clone());
             }
-            Expect {
-                regular: (0x20u8..=0x7e).map(|b| vec![b]).collect(),
-                regular_is_set: true,
-                special: uniq,
+            let Some(nreg) = vocab.len().checked_sub(uniq.len()) else {
+                return Err(format!("vocabulary has {} entries, fewer than the {} special tokens", vocab.len(), uniq.len()));
+            };
+            let regular: Vec<Vec<u8>> = vocab[..nreg].to_vec();
+            for t in &regular {
+                match std::str::from_utf8(t) {
+                    Ok(s) if s.chars().count() == 1 => {}
+                    _ => return Err(format!("regular token {t:?} of the char tokenizer is not a single character")),
+                }
             }
+            // the statement speaks of "its alphabet"; the documented one is printable ASCII
+            if !regular.contains(&vec![b'a']) || !regular.contains(&vec![b' ']) || regular.contains(&"ä".as_bytes().to_vec()) {
+                return Err("char tokenizer alphabet is not the ASCII alphabet the generators assume".into());
+            }
+            Ok(Expect { regular, special: uniq })
         }
         Kind::Bpe { table, max_vocab, .. } => {
-            let kept = match max_vocab {
-                None => table.entries.len(),
-                Some(l) => l
-                    .saturating_sub(special.tokens.len())
-                    .saturating_sub(256)
-                    .min(table.entries.len()),
+            let uniq = special.unique_tokens();
+            let Some(kept) = vocab.len().checked_sub(256 + uniq.len()) else {
+                return Err(format!("vocabulary has {} entries, fewer than 256 bytes + {} special tokens", vocab.len(), uniq.len()));
             };
+            if kept > table.entries.len() {
+                return Err(format!("{kept} merges in the vocabulary, the table has {}", table.entries.len()));
+            }
+            match max_vocab {
+                None if kept != table.entries.len() => {
+                    return Err(format!("no max_vocab_size but only {kept} of {} merges are in the vocabulary", table.entries.len()));
+                }
+                Some(l) if kept > 0 && vocab.len() > *l => {
+                    return Err(format!("vocab size {} exceeds max_vocab_size {l} although merges were kept", vocab.len()));
+                }
+                _ => {}
+            }
             let mut regular: Vec<Vec<u8>> = (0..=255u8).map(|b| vec![b]).collect();
             regular.extend(table.entries[..kept].iter().cloned());
-            Expect {
-                regular,
-                regular_is_set: false,
-                special: special.unique_tokens(),
-            }
+            Ok(Expect { regular, special: uniq })
         }
     }
 }
@@ -206,7 +225,7 @@ impl Prop for C04 {
     fn assumptions() -> Vec<String> {
         vec![
             "generated special tokens are prefix-free, >= 2 bytes and never equal to a regular token".into(),
-            "char tokenizer regular vocabulary is asserted as the *set* of the 95 printable ASCII characters (order is not part of the statement)".into(),
+            "what the statement leaves open is read from the tokenizer itself and only validated: names of the pad_to_multiple_of padding tokens, the concrete single-character alphabet of the char tokenizer, the number of merges kept under max_vocab_size (must be a prefix of the table, all of it without a limit, and within the limit)".into(),
             "for a regular token that is not valid UTF-8 on its own nothing is asserted about de_tokenize(&[id]) except that it returns".into(),
         ]
     }
@@ -220,7 +239,20 @@ impl Prop for C04 {
                 return out;
             }
         };
-        let ex = expect(&c.kind, &c.special);
+        let vocab = match tok.get_vocab() {
+            Ok(v) => v,
+            Err(e) => {
+                out.fail(format!("get_vocab failed: {e}"));
+                return out;
+            }
+        };
+        let ex = match expect(&c.kind, &c.special, &vocab) {
+            Ok(e) => e,
+            Err(e) => {
+                out.fail(e);
+                return out;
+            }
+        };
         match &c.kind {
             Kind::Byte { pad_to, .. } => {
                 out.label("byte");
@@ -244,24 +276,10 @@ impl Prop for C04 {
         let nreg = ex.regular.len();
         ensure!(out, vs == nreg + ex.special.len(), "vocab_size {vs}, expected {nreg} regular + {} special", ex.special.len());
         if let Kind::Byte { pad_to: Some(p), .. } = &c.kind {
-            ensure!(out, vs % p == 0, "vocab_size {vs} is not a multiple of pad_to_multiple_of {p}");
+            ensure!(out, vs % p == 0 && vs - (256 + c.special.unique_tokens().len()) < *p, "vocab_size {vs} is not the next multiple of pad_to_multiple_of {p}");
         }
-        let vocab = match tok.get_vocab() {
-            Ok(v) => v,
-            Err(e) => {
-                out.fail(format!("get_vocab failed: {e}"));
-                return out;
-            }
-        };
         ensure!(out, vocab.len() == vs, "get_vocab has {} entries, vocab_size is {vs}", vocab.len());
-        // regular part
-        if ex.regular_is_set {
-            let got: HashSet<&Vec<u8>> = vocab[..nreg].iter().collect();
-            let want: HashSet<&Vec<u8>> = ex.regular.iter().collect();
-            ensure!(out, got == want && got.len() == nreg, "regular part of the char vocabulary is not the 95 printable ASCII characters");
-        } else {
-            ensure!(out, vocab[..nreg] == ex.regular[..], "regular part of get_vocab differs from the expected tokens");
-        }
+        ensure!(out, vocab[..nreg] == ex.regular[..], "regular part of get_vocab differs from the expected tokens");
         // special part
         for (i, t) in ex.special.iter().enumerate() {
             ensure!(out, vocab[nreg + i] == t.as_bytes(), "special id {} holds {:?}, expected {t:?}", nreg + i, String::from_utf8_lossy(&vocab[nreg + i]));
